@@ -69,6 +69,32 @@ def allLbls (n : Nat) : List (Lbl n) :=
 /-- executable version of `stuck` -/
 def stuckB {n : Nat} (net : Net n) (s : NSt n) : Bool := (allLbls n).all fun l => (step net s l).isNone
 
+/-! ### whole-stream readers
+
+`ParamCombinator`, `FileCombinator` (and `Concatenator`, `StreamToSubStream`) read their in-ports to the end
+before they emit anything. `batch v = true` marks such a process: it forwards only when every upstream has
+returned and its ports are drained. The theorems of C05 are about networks without such processes
+(`stepB_nobatch`); with one of them inside a fan-out that reconverges, a balanced network can deadlock
+(`Props/C05.c05_network_batch_deadlocks`, finding F23). -/
+
+def canForwardB {n : Nat} (net : Net n) (batch : Fin n → Bool) (s : NSt n) (v : Fin n) : Bool :=
+  canForward net s v && (!batch v || (net.ins v).all fun u => s.term u && s.f u == s.c v)
+
+def stepB {n : Nat} (net : Net n) (batch : Fin n → Bool) (s : NSt n) : Lbl n → Option (NSt n)
+  | .forward v => if canForwardB net batch s v then some { s with f := upd s.f v (s.f v + 1) } else none
+  | l => step net s l
+
+def runB {n : Nat} (net : Net n) (batch : Fin n → Bool) : NSt n → List (Lbl n) → Option (NSt n)
+  | s, [] => some s
+  | s, l :: ls => match stepB net batch s l with | none => none | some s' => runB net batch s' ls
+
+def stuckBB {n : Nat} (net : Net n) (batch : Fin n → Bool) (s : NSt n) : Bool :=
+  (allLbls n).all fun l => (stepB net batch s l).isNone
+
+theorem stepB_nobatch {n : Nat} (net : Net n) (batch : Fin n → Bool) (h : ∀ v, batch v = false) (s : NSt n)
+    (l : Lbl n) : stepB net batch s l = step net s l := by
+  cases l <;> simp [stepB, step, canForwardB, h]
+
 def acyclic {n : Nat} (net : Net n) : Prop := ∀ v u, u ∈ net.ins v → u.val < v.val
 
 /-- every stream has the same length `N` -/
